@@ -7,14 +7,14 @@ REGISTRY = {
                       'invariants, no bound): every range lies inside the entity AND is exactly the RFC 7233 image of its '
                       'byte-range-spec (first-last, first-, -suffix), unsatisfiable specs add nothing; serve_file answers a single range '
                       'with 206, Content-Range bytes a-(b-1)/size, Content-Length b-a and exactly FILE[a:b], no satisfiable range '
-                      'with 416, otherwise the whole file; containment in the docroot is proved with os.path as trusted uninterpreted '
+                      'with 416, otherwise the whole file; the multipart/byteranges generator yields, for every part in any order or overlap, the '
+                      'Content-range line of that part followed by exactly FILE[a:b]; containment in the docroot is proved with os.path as trusted uninterpreted '
                       'functions, so it does not rely on what ".." resolves to.',
         'level_note': 'trusted: os.path.abspath/join/dirname/exists/isfile/isdir, os.stat, open/seek/read, urllib unquote/quote '
                       '(uninterpreted, axioms listed in evidence.trusted_base), int(str)/str.strip/str.split axiomatisation; front-end '
                       'URL sanitising is not assumed.',
         'explanation': 'contracts on get_ranges / Static._on_request / serve_file discharged path-wise by z3/cvc5',
-        'not_decided': ['multipart/byteranges generator body of serve_file (only status and headers of that path)',
-                        'URL.abspath/escape of the HTTP front-end guard'],
+        'not_decided': ['URL.abspath/escape of the HTTP front-end guard'],
     },
     'C18': {
         'modules': ['contracts.line_irc'], 'level': 'proof',
